@@ -193,6 +193,74 @@ func run(r *ev.Run, l layout) {
 		}
 	}
 	outcomes["fields/boundary"] = true
+	// history independence of the date form: FromChStyle of a valid text gives its id whatever was
+	// converted before - all ordered pairs (A, B) of ids on different days/times, with every
+	// single-position corruption (non-digit at each of the 24 positions), truncation and extension of
+	// A's and of B's text (and texts of B's day with A's time) converted in between; a corrupted text
+	// gives the same answer wherever in a history it is converted.
+	{
+		var picks []int64
+		seenDay := map[string]bool{}
+		for _, f := range fam {
+			if f.id <= 0 {
+				continue
+			}
+			cs := snowflake.CnStyle(f.id)
+			if len(cs) != 24 || seenDay[cs[:8]] {
+				continue
+			}
+			seenDay[cs[:8]] = true
+			picks = append(picks, f.id)
+			if len(picks) == 6 {
+				break
+			}
+		}
+		corrupt := func(cs string, other string) []string {
+			out := []string{cs[:23], cs + "0", "", other[:8] + cs[8:], cs[:8] + other[8:]}
+			for pos := 0; pos < len(cs); pos++ {
+				for _, ch := range []string{"x", " ", "-"} {
+					out = append(out, cs[:pos]+ch+cs[pos+1:])
+					out = append(out, other[:8]+(cs[:pos] + ch + cs[pos+1:])[8:])
+				}
+			}
+			return out
+		}
+		type ans struct {
+			v   int64
+			err bool
+		}
+		first := map[string]ans{}
+		for _, a := range picks {
+			for _, b := range picks {
+				if a == b || nviol > 10 {
+					continue
+				}
+				ca, cb := snowflake.CnStyle(a), snowflake.CnStyle(b)
+				for _, x := range append(corrupt(cb, ca), corrupt(ca, cb)...) {
+					evals++
+					if v, e := snowflake.FromChStyle(ca); e != nil || v != a {
+						fail("the 24-character date form does not convert back to the id", fmt.Sprintf("FromChStyle(%q) = %d err=%v want %d (start of a 3-call history)", ca, v, e, a), a)
+						break
+					}
+					vx, ex := snowflake.FromChStyle(x)
+					if ex != nil {
+						vx = 0
+					}
+					if f, ok := first[x]; !ok {
+						first[x] = ans{vx, ex != nil}
+					} else if f != (ans{vx, ex != nil}) {
+						fail("FromChStyle of one text depends on what was converted before", fmt.Sprintf("FromChStyle(%q) = (%d, refused=%v) after %q but (%d, refused=%v) earlier", x, vx, ex != nil, ca, f.v, f.err), a)
+						break
+					}
+					if v, e := snowflake.FromChStyle(cb); e != nil || v != b {
+						fail("FromChStyle of a valid text depends on what was converted before", fmt.Sprintf("after FromChStyle(%q) and FromChStyle(%q) [refused=%v], FromChStyle(%q) = %d err=%v want %d", ca, x, ex != nil, cb, v, e, b), b)
+						break
+					}
+				}
+			}
+		}
+		outcomes[fmt.Sprintf("cn/history/picks=%d", len(picks))] = true
+	}
 	// calendar sweep: EVERY calendar day (Asia/Shanghai) that the timestamp width reaches from this
 	// epoch - its first millisecond, the millisecond before it, and a day-dependent time of day
 	e0 := time.UnixMilli(l.epoch).In(shanghai)
@@ -386,7 +454,7 @@ func run(r *ev.Run, l layout) {
 
 func main() {
 	r := ev.Start("C07")
-	r.Rule("per layout (node bits 8/9/10 x node-at-lowest x three epochs, one process each): ids built from a boundary timestamp family (0,1,999..,2^k±1,max, calendar boundaries ±1ms 2000-2300, every millisecond of windows at 8 anchor dates) x (node,step) corners, EVERY calendar day the timestamp width reaches (first ms, the ms before, a day-dependent time of day), and ALL low-bit values for 1 (quick) / 3 (thorough) timestamps: IDFields/recombine, IDParse/IDParseEx, CnStyle/FromChStyle, order of adjacent ids; TimeBetweenID/TimeIDRange for all ordered pairs of boundary instants with ids probed around both endpoints; the same instants presented in 11 Locations (fixed odd offsets, daylight-saving zones around every transition of 2022-2024) give the same ranges")
+	r.Rule("per layout (node bits 8/9/10 x node-at-lowest x three epochs, one process each): ids built from a boundary timestamp family (0,1,999..,2^k±1,max, calendar boundaries ±1ms 2000-2300, every millisecond of windows at 8 anchor dates) x (node,step) corners, EVERY calendar day the timestamp width reaches (first ms, the ms before, a day-dependent time of day), and ALL low-bit values for 1 (quick) / 3 (thorough) timestamps: IDFields/recombine, IDParse/IDParseEx, CnStyle/FromChStyle (also as 3-call histories: valid text of one day, every single-position corruption / truncation / extension / day-time splice of a text, valid text of another day - all ordered pairs of 6 days), order of adjacent ids; TimeBetweenID/TimeIDRange for all ordered pairs of boundary instants with ids probed around both endpoints; the same instants presented in 11 Locations (fixed odd offsets, daylight-saving zones around every transition of 2022-2024) give the same ranges")
 	r.Assume("Asia/Shanghai is UTC+8 without DST from 2000 on", "instants at or after the epoch whose offset fits the timestamp width")
 	ls := layouts()
 	if r.Shard != "" {
